@@ -2,6 +2,7 @@
 from __future__ import annotations
 
 import math
+import re
 
 from hypothesis import HealthCheck, Phase, given, seed, settings
 from hypothesis import strategies as st
@@ -111,10 +112,12 @@ pure_cfgs = st.builds(
     lambda m, i, mx, r, j, errs, types: {"max_attempts": m, "initial": i, "max_delay": mx, "rate": r, "jitter": j, "errors": errs, "types": types},
     st.integers(1, 64), st.integers(0, 3600), st.integers(0, 3600), st.one_of(st.sampled_from([1, 1.5, 2, 10]), st.floats(1, 10)),
     st.sampled_from(["NONE", "FULL", "HALF"]),
-    st.sampled_from([None, None, ["boom"], ["x", "always"], []]),
+    # plain strings are literal substrings (also when they contain regex metacharacters); {"re": ...} is a compiled pattern
+    st.sampled_from([None, None, ["boom"], ["x", "always"], [], ["unavailable (503)"], ["[Errno 104]"], ["a.b", "x+"], [{"re": "a.b"}], [{"re": "^x+ y$"}, "(503)"]]),
     st.sampled_from([None, None, ["UserError"], ["ValueError", "UserError"], []]),
 )
-pure_inputs = st.tuples(pure_cfgs, st.integers(1, 64), st.sampled_from(["UserError", "OtherUserError", "ValueError"]), st.sampled_from(["boom", "x y", "always", ""]),
+_MSGS = ["boom", "x y", "always", "", "upstream unavailable (503)", "unavailable 503", "[Errno 104] reset", "permission denied for object", "axb", "a.b", "xx y", "x+"]
+pure_inputs = st.tuples(pure_cfgs, st.integers(1, 64), st.sampled_from(["UserError", "OtherUserError", "ValueError"]), st.sampled_from(_MSGS),
                         st.one_of(st.sampled_from([0.0, 0.5, 1 - 2**-53, 0.999999]), st.floats(0, 1, exclude_max=True)))
 
 
@@ -126,7 +129,8 @@ def _mk_strategy(cfg):
 
     return create_retry_strategy(RetryStrategyConfig(
         max_attempts=cfg["max_attempts"], initial_delay=Duration(seconds=cfg["initial"]), max_delay=Duration(seconds=cfg["max_delay"]),
-        backoff_rate=cfg["rate"], jitter_strategy=JitterStrategy(cfg["jitter"]), retryable_errors=cfg["errors"],
+        backoff_rate=cfg["rate"], jitter_strategy=JitterStrategy(cfg["jitter"]),
+        retryable_errors=[re.compile(p["re"]) if isinstance(p, dict) else p for p in cfg["errors"]] if cfg["errors"] is not None else None,
         retryable_error_types=[USER_ERRORS[x] for x in cfg["types"]] if cfg["types"] is not None else None))
 
 
@@ -162,7 +166,7 @@ def check_pure(inp, strat=None) -> list[dict]:
     if cfg["errors"] is None and cfg["types"] is None:
         matches = True
     else:
-        matches = any(p in str(err) for p in (cfg["errors"] or [])) or any(isinstance(err, USER_ERRORS[t]) for t in (cfg["types"] or []))
+        matches = any((re.search(p["re"], str(err)) is not None) if isinstance(p, dict) else (p in str(err)) for p in (cfg["errors"] or [])) or any(isinstance(err, USER_ERRORS[t]) for t in (cfg["types"] or []))
     want_retry = n < cfg["max_attempts"] and matches
     if d.should_retry != want_retry:
         out.append({"kind": "packaged_should_retry_wrong", "site": "max_attempts" if matches else "filter",
@@ -195,7 +199,7 @@ def _pure_stage(ctx):
 
     t()
 
-    calls = st.lists(st.tuples(st.integers(1, 6), st.sampled_from(["UserError", "OtherUserError", "ValueError"]), st.sampled_from(["boom", "always", "x y"]),
+    calls = st.lists(st.tuples(st.integers(1, 6), st.sampled_from(["UserError", "OtherUserError", "ValueError"]), st.sampled_from(["boom", "always", "x y", "unavailable (503)", "axb", "[Errno 104] reset", "object"]),
                                st.sampled_from([0.0, 0.5, 0.999999])), min_size=2, max_size=6)
 
     @seed(ctx.seed + 6)
